@@ -324,6 +324,9 @@ impl<'a> Gen<'a> {
                 } else {
                     self.rng.range(2, 40)
                 } as u32;
+                if !big && self.rng.chance(1, 6) {
+                    return Step::Lane(l, LaneCtl::Empties(self.rng.range(1, 3) as u32));
+                }
                 let first = self.next_supply[l.min(7)];
                 self.next_supply[l.min(7)] += n as u64;
                 Step::Lane(l, LaneCtl::Burst { first, n, pad: if big { *self.rng.pick(&[0usize, 12]) } else { *self.rng.pick(&[0usize, 0, 12, 90]) } })
